@@ -1002,3 +1002,22 @@ Proof.
   repeat (split; [vm_compute; reflexivity|]).
   eexists. split; [vm_compute; reflexivity|]. split; vm_compute; reflexivity.
 Qed.
+
+(* an explicit Flush (any Flush path) takes EVERYTHING that is in the container, whenever it runs: there is no
+   condition on the clock, on earlier Flushes, or on the flusher's state in its RemoveAll step, and its next
+   step hands exactly those tasks to the execute function *)
+Lemma flush_takes_all cf s i k s' :
+  nth_error (s_threads s) i = Some (TFl k L3) -> step cf s (LT i AGo) = Some s' ->
+  c_tasks (s_cont s') = [] /\ nth_error (s_threads s') i = Some (TFl k (L4 (c_tasks (s_cont s)))).
+Proof.
+  intros Hi H. unfold step in H. rewrite Hi in H. simpl in H. inversion H; subst s'; clear H.
+  split; [reflexivity|]. unfold set_thr; simpl. eapply nth_error_upd_eq; eassumption.
+Qed.
+
+Lemma flush_executes cf s i k b s' : b <> [] ->
+  nth_error (s_threads s) i = Some (TFl k (L4 b)) -> step cf s (LT i AGo) = Some s' ->
+  s_executed s' = s_executed s ++ [b].
+Proof.
+  intros Hb Hi H. unfold step in H. rewrite Hi in H. simpl in H. inversion H; subst s'; clear H.
+  unfold do_execute. destruct b; [congruence|]. reflexivity.
+Qed.
